@@ -42,9 +42,18 @@ def rule_d1(F):
         edges = [c for c in hir.nodes(arm["body"], "mcall") if c["m"] == "add_edge"]
 
         def edge_ok(c):
+            # add_edge(<context parameter>.item, <the declaration being matched on>.name) - locals identified by role, not by name
             a0 = hir.peel_refs(c["args"][0])
             a1 = hir.peel_refs(c["args"][1])
-            return a0.get("k") == "field" and a0["n"] == "item" and names(a0) == {"ctx"} and a1.get("k") == "field" and a1["n"] == "name" and names(a1) == {"dec"}
+            if not (a0.get("k") == "field" and a0["n"] == "item" and a1.get("k") == "field" and a1["n"] == "name"):
+                return False
+            l0 = hir.res_local(hir.peel_refs(a0["e"]))
+            l1 = hir.res_local(hir.peel_refs(a1["e"]))
+            pidx = hir.param_index(b.hir)
+            ctx_ok = l0 in pidx and "Context" in (b.hir["params"][pidx[l0]].get("ty") or "")
+            sc = hir.peel_refs(hir.strip(ms[-1]["e"]))
+            sc_local = hir.res_local(hir.peel_refs(sc["e"])) if sc.get("k") == "field" else hir.res_local(sc)
+            return ctx_ok and l1 is not None and l1 == sc_local
         if "DeclarationKind::Function" in d and "Some" in d:
             # statement order: add_edge before the Ok(ResolvedPath::Function ..)
             st = (hir.strip(arm["body"]).get("stmts") or []) + [hir.strip(arm["body"]).get("expr")]
@@ -183,13 +192,38 @@ def rule_d3(F):
         r.missing("lir::lower program()")
     else:
         st = pb.hir["value"].get("stmts") or []
+        pld = hir.LocalDefs(pb.hir)
+        # the vector that becomes the program's `functions` field, and what is appended to it, classified by where it comes from
+        out_vec = None
+        for sn in hir.nodes(pb.hir["value"], "struct"):
+            for f in sn["fields"]:
+                if f[0] == "functions":
+                    out_vec = hir.res_local(hir.peel_refs(hir.strip(f[1])))
+        pushed_in_loop = set()
+        for lp in hir.nodes(pb.hir["value"], "loop"):
+            for c in hir.nodes(lp, "mcall"):
+                if c["m"] == "push":
+                    l = hir.res_local(hir.peel_refs(hir.strip(c["recv"])))
+                    if l is not None:
+                        pushed_in_loop.add(l)
+
+        def what(e):
+            l = hir.res_local(hir.peel_refs(hir.strip(e)))
+            if l in pushed_in_loop:
+                return "functions"
+            d = pld.get(l) if l is not None else None
+            gen = [hir.last(hir.call_def(c) or "") for c in hir.nodes(d[1], "call")] if d and d[1] is not None else []
+            gen = [g for g in gen if g.startswith("generate_")]
+            return gen[0] if gen else "?"
         seq = []
-        for s in st:
-            for c in hir.nodes(s, "mcall"):
-                if c["m"] in ("append", "extend") and names(c["recv"]) == {"all_functions"}:
-                    seq.append(sorted(names(c["args"][0])))
+        for s_ in st:
+            for c in hir.nodes(s_, "mcall"):
+                if c["m"] in ("append", "extend") and out_vec is not None and hir.res_local(hir.peel_refs(hir.strip(c["recv"]))) == out_vec:
+                    seq.append([what(c["args"][0])])
         r.inst("lir program order", {"appended": seq})
-        if not seq or seq[-1] != ["functions"]:
+        if out_vec is None:
+            r.missing("`functions` field of the lowered program")
+        if not seq or seq[-1] != ["functions"] or len(seq) < 4:
             r.bad(pb.path, "helpers first", relfile(pb.file), pb.line, "user items (constants and functions) must be appended after the generated clone/drop/eq helpers, which constants need while being evaluated (sequence %s)" % seq)
         loops = [n for n in hir.nodes(pb.hir["value"], "mcall") if n["m"] in ("rev", "sort", "sort_by", "reverse")]
         if loops:
